@@ -267,7 +267,7 @@ def run(tier, seed, out, drv, facts):
     # --- fault enumeration (modelled operations)
     for name, point, cls, prog in catalogue():
         w = drv.ask({"cmd": "prog", "prog": prog, "skel": skel, "wrap": wrap})
-        got, _ = impl_prog.run_program(prog, "typeguard", rng)
+        got, _ = impl_prog.run_program(prog, "typeguard", rng, reset=False)
         fired = any(o.get("v") in ("EXC", "BASEEXC", "exc", "baseexc", "tceParams", "tceReturn", "checkerError") for o in got)
         out.case(("fault", name, point, cls), fired, sample={"operation": name, "fault_point": point, "class": cls, "observed": [o.get("v") for o in got if "v" in o]})
         out.count("fault_" + cls)
@@ -308,7 +308,9 @@ def run(tier, seed, out, drv, facts):
             else:
                 prog = gen_prog.rand_prog(rng, 2, max_stmts=3)
                 hist.append(prog)
-                impl_prog.run_program(prog, "typeguard", rng)
+                _, resid = impl_prog.run_program(prog, "typeguard", rng, reset=False)
+                if resid != {"depth": 0, "flatten": False, "tp": False}:
+                    break
         out.case(("history", json.dumps(hist, sort_keys=True)), any(isinstance(h, str) for h in hist),
                  sample={"history": [h if isinstance(h, str) else "<program of %d statements>" % gen_prog.prog_size(h) for h in hist]})
         pa = probe_annotation(X)
@@ -321,7 +323,7 @@ def run(tier, seed, out, drv, facts):
 
 def replay(rep, out, drv, facts):
     if "program" in rep:
-        got, _ = impl_prog.run_program(rep["program"], "typeguard", None)
+        got, _ = impl_prog.run_program(rep["program"], "typeguard", None, reset=False)
         out.case("replay", True, sample=rep["program"])
         evaluate_after(out, "replay", "replayed program", {"program": rep["program"]})
     else:
